@@ -59,8 +59,11 @@ func setupValidator() {
 			panic(err)
 		}
 		carr := []string{"gossip-" + x.name}
-		if x.name == "share" {
-			carr = append(carr, "gossip-share-scrypt", "gossip-share-btc")
+		switch x.name {
+		case "share":
+			carr = append(carr, "gossip-share-scrypt", "gossip-share-btc", "gossip-share-consistent")
+		case "block", "header":
+			carr = append(carr, "gossip-"+x.name+"-consistent")
 		}
 		entries = append(entries, &entry{Name: "gossip-validator-" + x.name, Carriers: carr, Reach: "peer-validator",
 			Run: func(b []byte) error {
@@ -78,7 +81,7 @@ func setupValidator() {
 		loc  common.Location
 	}{{"region", region, common.Location{0}}, {"prime", prime, common.Location{}}} {
 		c, loc := x.c, x.loc
-		entries = append(entries, &entry{Name: "sanitycheck-" + x.name, Carriers: []string{"gossip-block", "gossip-header"}, Reach: "peer-validator",
+		entries = append(entries, &entry{Name: "sanitycheck-" + x.name, Carriers: []string{"gossip-block", "gossip-header", "gossip-block-consistent", "gossip-header-consistent"}, Reach: "peer-validator",
 			Run: func(b []byte) error {
 				p := new(types.ProtoWorkObjectBlockView)
 				if err := proto.Unmarshal(b, p); err != nil {
